@@ -110,8 +110,9 @@ CLAIMS.update({
          "machine-checked proof (Lean 4) about a hand-written model + typed-tree correspondence", "6 C07"),
  'C10': ("proof", "Proof, partial. The front-end models are total Lean functions tied to the implementation on error class and position; "
          "parse_never_runs_out_of_fuel (induction over the 25 grammar functions, every source text): the parser model's explicit fuel is never "
-         "exhausted, so parse_total is three-way: tree, located lexer error or located parser error; the typechecker model is total and its "
-         "cast/Volatile assertions cannot fire (C07 type soundness, volatile_initialiser_means_const_array); "
+         "exhausted, so parse_total is three-way: tree, located lexer error or located parser error; front_end_total (induction over parse trees, every source text): the front end "
+         "answers a located lexer/parser error, a type error or a typed tree - typechecker_never_internal: neither the BREAK/DEFEAT "
+         "assertions of FuncDefinition.evaluate, nor the cast/Volatile assertions, nor an unknown operator class can be reached; "
          "string/character data can never make the output unassemblable (escape round trip). NOT MODELLED (runtime): exit status, stderr and "
          "output file of the hidc process are observed on the real command-line tool; absence of internal exceptions on four input "
          "streams x option combinations is validated in-process, every accepted output is assembled by the Lean assembler.",
